@@ -346,6 +346,45 @@ def steps_cls(rng, mode):
     return steps
 
 
+def echo_gen(n, tag):
+    """a generator that reports what it is sent and how it ends"""
+    log = []
+    try:
+        for i in range(n):
+            got = yield (tag, i, tuple(log))
+            log.append(got)
+    finally:
+        log.append("closed")
+    return ("done", tuple(log))
+
+
+def steps_gen(rng, mode):
+    v = plain_small(rng)
+
+    def nxt(o, e):
+        try:
+            return next(o)
+        except StopIteration as ex:
+            return ("stop", ex.args)
+    steps = [("next", nxt), ("next2", nxt), ("iter_is_self", lambda o, e: list(zip(o, range(2)))), ("drain", lambda o, e: list(o))]
+    if mode != "default":       # send / close are public names
+        def send(o, e):
+            try:
+                return o.send(v)
+            except StopIteration as ex:
+                return ("stop", ex.args)
+        steps += [("send", send), ("send2", send), ("close", lambda o, e: o.close()), ("gi_running", lambda o, e: o.gi_running)]
+    return steps
+
+
+def steps_dictview(rng, mode):
+    k = hashable_small(rng)
+    fs = frozenset(hashable_small(rng) for _ in range(rng.randrange(0, 3)))
+    return [("len", lambda o, e: len(o)), ("contains", lambda o, e: k in o), ("iter", lambda o, e: sorted(o, key=repr)),
+            ("and", lambda o, e: sorted(o & fs, key=repr)), ("or", lambda o, e: sorted(o | fs, key=repr)), ("sub", lambda o, e: sorted(o - fs, key=repr)),
+            ("eq", lambda o, e: o == fs), ("le", lambda o, e: o <= fs), ("repr_kind", lambda o, e: repr(o)[:9]), ("bool", lambda o, e: bool(o))]
+
+
 def steps_file(rng, mode):
     data = bytes(rng.choice(b"ab\n\x00z") for _ in range(rng.randrange(0, 9)))
     n, pos = rng.randrange(0, 7), rng.randrange(0, 12)
@@ -371,6 +410,8 @@ KINDS = {
     "deque": (lambda rng: collections.deque([plain_small(rng) for _ in range(rng.randrange(0, 5))], rng.choice([None, 4])), steps_deque),
     "vec": (lambda rng: Vec(*[rng.randrange(-3, 9) for _ in range(rng.randrange(0, 4))]), steps_vec),
     "cls": (lambda rng: Color, steps_cls),
+    "gen": (lambda rng: ("pair", lambda n=rng.randrange(0, 5): (echo_gen(n, "g"), echo_gen(n, "g"))), steps_gen),
+    "dictview": (lambda rng: ("pair", lambda d={hashable_small(rng): 1 for _ in range(rng.randrange(0, 4))}: (dict(d).keys(), dict(d).keys())), steps_dictview),
 }
 
 
@@ -416,6 +457,10 @@ def builtin_of(e):
 
 
 def snapshot(kind, obj):
+    if kind == "gen":
+        return ("gen", obj.gi_frame is None)
+    if kind == "dictview":
+        return ("dictview", sorted(map(repr, obj)))
     if kind in ("cls", "cls_shadowed"):
         return sorted(k for k in obj.__dict__ if not k.startswith("__"))
     if kind == "vec":
@@ -433,7 +478,10 @@ def run_sequence(ctx, rng, pair, mode, kind, idx):
         kind = "vec"
         make, stepgen = KINDS[kind]
     target = make(rng)
-    twin = copy.deepcopy(target)
+    if type(target) is tuple and len(target) == 2 and target[0] == "pair":
+        target, twin = target[1]()          # kinds that cannot be deep-copied are built twice
+    else:
+        twin = copy.deepcopy(target)
     proxy = a._unbox(b._box(target))
     nsteps = rng.randrange(1, 41)
     names = []
